@@ -1041,7 +1041,8 @@ bool IGXMLScanner::normalizeAttValue( const   XMLAttDef* const    attDef
         while ((nextCh = *srcPtr)!=0)
         {
             // Do we have an escaped character ?
-            if (nextCh == 0xFFFF)
+            const bool escaped = (nextCh == 0xFFFF);
+            if (escaped)
             {
                 nextCh = *++srcPtr;
             }
@@ -1052,9 +1053,16 @@ bool IGXMLScanner::normalizeAttValue( const   XMLAttDef* const    attDef
                 retVal = false;
             }
 
+            //  A character that came from a character reference is white
+            //  space to be collapsed only if it is a space (XML 1.0, 3.3.3:
+            //  referenced characters are appended as they are, then #x20
+            //  characters are trimmed and collapsed)
+            const bool isWS = (!escaped || nextCh == chSpace) &&
+                              fReaderMgr.getCurrentReader()->isWhitespace(nextCh);
+
             if (curState == InWhitespace)
             {
-                if (!fReaderMgr.getCurrentReader()->isWhitespace(nextCh))
+                if (!isWS)
                 {
                     if (firstNonWS)
                         toFill.append(chSpace);
@@ -1069,7 +1077,7 @@ bool IGXMLScanner::normalizeAttValue( const   XMLAttDef* const    attDef
             }
             else if (curState == InContent)
             {
-                if (fReaderMgr.getCurrentReader()->isWhitespace(nextCh))
+                if (isWS)
                 {
                     curState = InWhitespace;
                     srcPtr++;
